@@ -993,11 +993,7 @@ fn cmd_run(args: &Args) -> i32 {
     for (i, n) in OFFCLASS_NAMES.iter().enumerate() {
         by_class.insert((*n).to_string(), json!(out_counters.hard_by_class[i]));
     }
-    let kinds = [
-        "Other(EIO)", "UnexpectedEof", "TimedOut", "WouldBlock", "PermissionDenied", "NotFound",
-        "BrokenPipe", "ConnectionReset", "InvalidInput", "InvalidData", "Unsupported", "NotConnected",
-        "OutOfMemory",
-    ];
+    let kinds = scenario::ErrKind::NAMES;
     let mut by_kind = serde_json::Map::new();
     for (i, n) in kinds.iter().enumerate() {
         by_kind.insert((*n).to_string(), json!(out_counters.hard_by_kind[i]));
